@@ -308,6 +308,73 @@ pub fn run_once<C: Runnable>(case: &C, k: u32, plan: Vec<(u64, Fault, Mode)>, ke
     out
 }
 
+/// Evaluates the table expressions of the lookup argument called `name` on every usable row of
+/// a synthesised `MockProver` (unassigned cells read as 0, rotations wrap): the rows of a
+/// *dynamic* table as the lookup argument sees them. `None` if there is no such lookup.
+pub fn lookup_table_tuples(prover: &MockProver<F>, name: &str) -> Option<Vec<(usize, Vec<F>)>> {
+    use midnight_proofs::dev::CellValue;
+    let cs = prover.cs();
+    let lk = cs.lookups().iter().find(|l| l.name() == name)?;
+    let n = prover.fixed().first().map(|c| c.len()).or_else(|| prover.advice().first().map(|c| c.len()))?;
+    let cell = |c: &CellValue<F>| match c {
+        CellValue::Assigned(v) => *v,
+        _ => F::from(0),
+    };
+    let at = |row: usize, rot: i32| ((row as i64 + rot as i64).rem_euclid(n as i64)) as usize;
+    let mut out = vec![];
+    for row in prover.usable_rows().clone() {
+        let t: Vec<F> = lk
+            .table_expressions()
+            .iter()
+            .map(|e| {
+                e.evaluate(
+                    &|c| c,
+                    &|_| panic!("selectors are fixed columns in a MockProver"),
+                    &|q| cell(&prover.fixed()[q.column_index()][at(row, q.rotation().0)]),
+                    &|q| cell(&prover.advice()[q.column_index()][at(row, q.rotation().0)]),
+                    &|q| match &prover.instance()[q.column_index()][at(row, q.rotation().0)] {
+                        InstanceValue::Assigned(v) => *v,
+                        InstanceValue::Padding => F::from(0),
+                    },
+                    &|_| F::from(0),
+                    &|a| -a,
+                    &|a, b| a + b,
+                    &|a, b| a * b,
+                    &|a, s| a * s,
+                )
+            })
+            .collect();
+        out.push((row, t));
+    }
+    Some(out)
+}
+
+/// Rows of a dynamic table whose key coordinates coincide while another coordinate differs: a
+/// lookup into such a table can be answered with either row. Rows whose key is all-zero (the
+/// default of unused rows) are ignored. Returns (row a, row b) pairs, at most `max`.
+pub fn ambiguous_table_keys(tuples: &[(usize, Vec<F>)], key: &[usize], max: usize) -> Vec<(usize, usize)> {
+    use ff::PrimeField;
+    let mut seen: std::collections::HashMap<Vec<[u8; 32]>, (usize, &Vec<F>)> = Default::default();
+    let mut out = vec![];
+    for (row, t) in tuples {
+        let k: Vec<[u8; 32]> = key.iter().map(|i| t[*i].to_repr()).collect();
+        if k.iter().all(|b| b.iter().all(|x| *x == 0)) {
+            continue;
+        }
+        match seen.get(&k) {
+            Some((r0, t0)) => {
+                if *t0 != t && out.len() < max {
+                    out.push((*r0, *row));
+                }
+            }
+            None => {
+                seen.insert(k, (*row, t));
+            }
+        }
+    }
+    out
+}
+
 /// Groups the assignment indices of one traced honest synthesis by *cell kind* = (region name,
 /// column, region-relative offset), in order of first appearance. A strided index sweep can miss
 /// a rarely used region shape entirely; sweeping one (or the first and the last) representative
